@@ -32,14 +32,17 @@ def gen_conc_cases(rng, n, S, big=False):
         cases.append({"id": i + 1, "plans": plans, "mode": modes[i % 5], "procs": 1 if i % 7 == 3 else 0, "late": late,
                       "delay_us": rng.choice([0, 0, 100, 400]) if i % 3 else 0, "S": S,
                       # every sixth run: the kernel transiently refuses some transmission attempts of every send (ENOBUFS)
-                      "faults": rng.choice(["01", "001", "0101", "011", "1"]) if i % 6 == 2 else ""})
+                      "faults": rng.choice(["01", "001", "0101", "011", "1"]) if i % 6 == 2 else "",
+                      # every third run: the handle the senders are cloned from has carried a multi-packet message before (what a handle
+                      # keeps from one send to the next would then be shared by all the clones)
+                      "warm": cls["l"] if (i % 3 == 0 and "l" in cls) else (max(cls.values()) if i % 3 == 0 else 0)})
     return cases
 
 
 def run_conc(binp, S, cases, Sreal=None):
     lines = ["id=%d msgs=%s mode=%s procs=%d delay_us=%d late=%d%s" % (
         c["id"], ";".join(",".join(str(x) for x in p) for p in c["plans"]), c["mode"], c["procs"], c["delay_us"], c.get("late", 0),
-        (" faults=" + c["faults"]) if c.get("faults") else "") for c in cases]
+        ((" faults=" + c["faults"]) if c.get("faults") else "") + ((" warm=%d" % c["warm"]) if c.get("warm") else "")) for c in cases]
     env = {"VSHIM_SNDBUF": S} if S else {}
     recs, trace, rc, err = C.run_harness(binp, "conc", lines, env_extra=env, timeout=900)
     by = {r["id"]: r for r in recs if r.get("kind") == "conc"}
@@ -240,6 +243,25 @@ def crash_oracle(it):
     order = [i for i in ids if i in ((7, 0), (7, 1), (9, 0))]
     if order != sorted(order):
         return "messages delivered out of order: %s" % order
+    if c["observe"] == "timeout_live":
+        # the timed receives ran while the sender was still alive (it hung 300 ms after the first fragment, then died)
+        if "Panic" in words:
+            return ("try_recv_timeout(100 ms) panicked: it had taken the first fragment of a message whose sender hung and died 300 ms later, "
+                    "i.e. after the receive's own timeout had long passed")
+        whole = ch["t_first"] and ch["t_follow"] >= c["npk"] - 1
+        if whole and (7, 1) not in ids:
+            return "a message whose last fragment had been sent before the sender died was not delivered"
+        if not whole and (7, 1) in ids:
+            return "an unfinished message was delivered"
+        if c["survivor"] and "Disconnected" in words:
+            return "receiver was told 'disconnected' although another sender handle survives"
+        if not c["survivor"] and (not words or words[-1] != "Disconnected"):
+            return "no surviving sender, yet the timed receives never reported 'disconnected' (log ends %s)" % rec["log"][-2:]
+        if any(w not in ("Empty", "Disconnected") for w in words):
+            return "a timed receive reported %s" % [w for w in words if w not in ("Empty", "Disconnected")][0]
+        if rec.get("fds_after") != rec.get("fds_before"):
+            return "descriptors left behind: %s -> %s" % (rec.get("fds_before"), rec.get("fds_after"))
+        return None
     if c["observe"] == "timeout_idle":
         waits = [e["waits"] for e in rec["log"] if isinstance(e, dict) and "waits" in e]
         for w, us in (waits[0] if waits else []):
@@ -413,6 +435,13 @@ def check_C12(chk):
                         for surv in (0, 1):
                             cases.append({"id": next(nid), "len": L, "k": k, "survivor": surv, "natt": natt, "nreg": 2 if (natt and k % 2) else 0, "observe": observe, "npk": npk, "S": S})
             if observe == "timeout":
+                # timed receives issued while the sender is still alive: it hangs 300 ms after the first fragment and dies at its next
+                # call, long after the 100 ms timeout of the receive that took the first fragment
+                for npk, L in shapes.items():
+                    if npk >= 2:
+                        for k in range(3, 3 + npk + 2):
+                            for surv in (0, 1):
+                                cases.append({"id": next(nid), "len": L, "k": k, "survivor": surv, "natt": 0, "nreg": 0, "observe": "timeout_live", "npk": npk, "S": S})
                 # a timed receive on the connected, idle channel right after the crash (the survivor stays silent)
                 for npk, L in shapes.items():
                     for k in range(0, 1 + (1 if npk == 1 else 3 + npk) + 2):
@@ -437,7 +466,7 @@ def check_C12(chk):
         key = "S=%d npk=%d len=%d k=%d survivor=%d natt=%d observe=%s" % (c["S"], c["npk"], c["len"], c["k"], c["survivor"], c["natt"], c["observe"])
         chk.failing_input(why, {"input": c, "child_progress": it["child"], "observed": it["rec"]}, key=key)
     header = "From Coq Require Import List Bool.\nFrom IPC Require Import Crash CrashCheck.\nImport ListNotations.\n"
-    todo = [(i, crash_model_term(it)) for i, it in enumerate(items) if it["rec"] is not None and not it["rec"]["hang"] and it["case"]["observe"] != "timeout_idle"]
+    todo = [(i, crash_model_term(it)) for i, it in enumerate(items) if it["rec"] is not None and not it["rec"]["hang"] and it["case"]["observe"] not in ("timeout_idle", "timeout_live")]
     res, errors = C.coq_eval_sharded(header, todo, lambda p: "Eval vm_compute in (%d, %s)." % p, "c12")
     bad = [items[i] for i, _ in todo if res.get(i) != "true"]
     # the timed receives on the idle channel: their call sequence (flag, poll, recvmsg on the receiver's socket) against Timed.recv_all,
@@ -495,7 +524,16 @@ def vanish_oracle(it):
         return "harness died: %s" % it["stderr"][-300:]
     o = rec["out"]
     sc = c["scen"]
-    if sc == "server_dropped":
+    if sc == "carrier_fail":
+        if not str(o["carrier"]).startswith("Err"):
+            return "a send to a vanished receiver (carrying another channel's receiving end) reported %s" % o["carrier"]
+        for k, what in (("small", "a small message"), ("big", "a multi-fragment message")):
+            if o[k] == "hang":
+                return "the receiving end of a channel went down inside a message whose send was refused; sending %s on that channel then blocked for ever" % what
+            if o[k] == "Ok":
+                return ("the receiving end of a channel went down inside a message whose send was refused (the carrier's receiver had vanished); sending %s on that channel "
+                        "afterwards reported success" % what)
+    elif sc == "server_dropped":
         s = o["send"]
         if s == "hang":
             return "send to a client endpoint of a one-shot server that was dropped without accepting blocked for ever"
@@ -575,11 +613,14 @@ def check_C09(chk):
     # the receiving end sits in a one-shot server that is dropped, unaccepted, after the client has connected
     for L in (100, 1 << 20):
         during.append({"id": next(nid), "scen": "server_dropped", "len": L})
+    # the receiving end went down inside a message whose own send was refused (its carrier's receiver had vanished)
+    for L in (100, 1 << 20):
+        during.append({"id": next(nid), "scen": "carrier_fail", "len": L})
     jobs.append((None, during))
     with concurrent.futures.ThreadPoolExecutor(max_workers=4) as ex:
         items = [it for r in ex.map(lambda j: run_vanish(bins["default"], j[0], j[1]), jobs) for it in r]
     # in-process transport: same scenarios except the forked ones
-    inp = [{"id": next(nid), "scen": sc, "len": L} for sc in ("transit", "carrier", "server_dropped") for L in (100, 100000)]
+    inp = [{"id": next(nid), "scen": sc, "len": L} for sc in ("transit", "carrier", "server_dropped", "carrier_fail") for L in (100, 100000)]
     recs, _, _, err = C.run_harness(bins["inprocess"], "vanish", ["id=%d scen=%s len=%d" % (c["id"], c["scen"], c["len"]) for c in inp], shim=False, timeout=120)
     by = {r["id"]: r for r in recs if r.get("kind") == "vanish"}
     items += [{"case": dict(c, S=0, flavour="inprocess"), "rec": by.get(c["id"]), "send_obs": None, "recv_obs": None, "stderr": err} for c in inp]
